@@ -197,7 +197,11 @@ class CallMixin:
                 if self.path.branch(obj.isnone):
                     self.raise_builtin("AttributeError")
                 obj = obj.val
+        if isinstance(obj, vals.VBottom):
+            return vals.BOTTOM
         if isinstance(obj, VNone):
+            if self.spec_mode:
+                return vals.BOTTOM
             self.raise_builtin("AttributeError")
         if isinstance(obj, VRef):
             cell = self.heap()[obj.addr]
@@ -419,7 +423,23 @@ class CallMixin:
         raise Unsupported(f"cannot expand {v!r} (symbolic length)")
 
     def call(self, fv: V, args, kwargs) -> V:
+        if isinstance(fv, vals.VBottom) or (self.spec_mode and any(isinstance(a, vals.VBottom) for a in args)):
+            return vals.BOTTOM
         if isinstance(fv, VNative):
+            if self.spec_mode and getattr(fv, "external", False):
+                if any(isinstance(a, VNone) for a in args):
+                    return vals.BOTTOM
+                args = [a.val if isinstance(a, VOpt) else a for a in args]
+            elif getattr(fv, "external", False) and any(isinstance(a, VOpt) for a in args):
+                # passing a possibly-None value to a library function: None is a TypeError there
+                na = []
+                for a in args:
+                    if isinstance(a, VOpt):
+                        if self.path.branch(a.isnone):
+                            self.raise_builtin("TypeError")
+                        a = a.val
+                    na.append(a)
+                args = na
             return fv.fn(self, args, kwargs)
         if isinstance(fv, VBound):
             f = fv.func
@@ -445,6 +465,8 @@ class CallMixin:
         raise Unsupported(f"call of {fv!r}")
 
     def call_method(self, recv, name, args, kwargs):
+        if isinstance(recv, vals.VBottom):
+            return vals.BOTTOM
         r = self.deref(recv) if not (isinstance(recv, VRef) and self.heap()[recv.addr].val is None) else recv
         if isinstance(r, VStr):
             return strings.call_method(self, r, name, args, kwargs)
@@ -665,6 +687,22 @@ class CallMixin:
             values["_yielded"] = y
         # only names that are bound
         values = {k: v for k, v in values.items() if v is not None}
+        # concrete-shaped containers with a declared kind are viewed symbolically
+        for k, v in list(values.items()):
+            kind = fr.local_kind(k)
+            if kind is None:
+                continue
+            d = self.deref(v)
+            if isinstance(d, VConstDict) and not d.items and kind.startswith("dict["):
+                tmpl = vals.fresh(kind, "tmpl")
+                ks = tmpl.key.leaves()[0].sort()
+                values[k] = VMap(tmpl.key, z3.K(ks, z3.BoolVal(False)), tmpl.val)
+            elif isinstance(d, VList) and d.items is not None and kind.startswith("list["):
+                tmpl = vals.fresh(kind, "tmpl")
+                if d.items:
+                    values[k] = vals.coerce(VList(items=[self.dataify(x) for x in d.items]), tmpl)
+                else:
+                    values[k] = VList(z3.IntVal(0), tmpl.elem)
         saved = (self.spec_mode, self.spec_frame)
         saved_line = self.cur_line
         self.spec_mode = True
@@ -861,15 +899,18 @@ class CallMixin:
         self.assign(g.target, seq.at(j), e2)
         saved = self.spec_mode
         self.spec_mode = True
+        mark = len(self.path.assumptions)
         try:
             conds = [self.truthy(self.ev(c, e2)) for c in g.ifs]
             body = self.truthy(self.ev(comp.elt, e2))
         finally:
             self.spec_mode = saved
+        facts = self.path.assumptions[mark:]
+        del self.path.assumptions[mark:]
         rng = z3.And(0 <= j, j < seq.length())
         if which == "all":
-            return VBool(z3.ForAll([j], z3.Implies(z3.And([rng] + conds), body)))
-        return VBool(z3.Exists([j], z3.And([rng] + conds + [body])))
+            return VBool(z3.ForAll([j], z3.Implies(z3.And([rng] + conds + facts), body)))
+        return VBool(z3.Exists([j], z3.And([rng] + conds + facts + [body])))
 
     def spec_quant(self, which, node, env):
         """forall("kind", lambda x: P) / exists(...)"""
@@ -888,10 +929,15 @@ class CallMixin:
             v = vals.fresh(kd, nme, namer=lambda n, s: z3.FreshConst(s, n))
             bound += v.leaves()
             e2.locals[nme] = v
+        mark = len(self.path.assumptions)
         body = self.truthy(self.ev(lam.body, e2))
+        # axiom instances created while evaluating the body mention the bound variables: they
+        # are valid for every value, so they belong inside the quantifier
+        facts = self.path.assumptions[mark:]
+        del self.path.assumptions[mark:]
         if which == "forall":
-            return VBool(z3.ForAll(bound, body))
-        return VBool(z3.Exists(bound, body))
+            return VBool(z3.ForAll(bound, z3.Implies(z3.And(facts), body) if facts else body))
+        return VBool(z3.Exists(bound, z3.And(facts + [body]) if facts else body))
 
     # ------------------------------------------------------------------ comprehensions
     def ev_ListComp(self, node, env):
